@@ -163,6 +163,36 @@ def literal(rng, params, const, numeric=True, equality=True, extra_terms=()):
 # --------------------------------------------------------------------------------------------
 # preconditions
 # --------------------------------------------------------------------------------------------
+def forall_node(rng, params, const, numeric, nested_body=False):
+    T = rng.choice(["t1", "t1", "t3"])
+    op = rng.choice(["and", "and", "or"])
+    m = rng.choice([1, 2])
+    body = [literal(rng, params, const, numeric, False, extra_terms=("?z",)) for _ in range(m)]
+    if not any("?z" in render(b) for b in body):
+        body[0] = rng.choice([["p", "?z"], ["not", ["p", "?z"]], [">=", ["f", "?z"], "0"]])
+    if nested_body:
+        op2 = "or" if op == "and" else "and"
+        body.append([op2] + [literal(rng, params, const, numeric, False, extra_terms=("?z",)) for _ in range(rng.choice([1, 2]))])
+    return ["forall", ["?z", "-", T], [op] + body]
+
+
+def deep_precondition(rng, params, const, numeric=True):
+    """nesting beyond the basic family: a forall inside an or/and node, an or/and inside a forall body, two levels of
+    and/or nesting"""
+    kind = rng.choice(["forall_in_node", "node_in_forall", "two_levels", "forall_in_node"])
+    parts = [literal(rng, params, const, numeric, True) for _ in range(rng.choice([0, 1, 2]))]
+    if kind == "forall_in_node":
+        op = rng.choice(["or", "or", "and"])
+        parts.append([op, literal(rng, params, const, numeric, True), forall_node(rng, params, const, numeric)])
+    elif kind == "node_in_forall":
+        parts.append(forall_node(rng, params, const, numeric, nested_body=True))
+    else:
+        inner = [rng.choice(["and", "or"])] + [literal(rng, params, const, numeric, True) for _ in range(2)]
+        parts.append([rng.choice(["or", "and"]), literal(rng, params, const, numeric, True), inner])
+    rng.shuffle(parts)
+    return ["and"] + parts
+
+
 def precondition(rng, params, const, features):
     """features: subset of {'nested','forall','numeric','equality'}"""
     numeric = "numeric" in features
@@ -397,6 +427,23 @@ def core_effects():
     out.append(("P1", ["and", ["p", "?x"], ["forall", ["?z", "-", "t1"], ["when", ["q", "?z", "?x"], ["not", ["q", "?z", "?x"]]]]]))
     out.append(("P3", ["and", ["not", ["p", "?x"]], ["when", ["p", "?y"], ["p", "?x"]]]))
     return out
+
+
+def deep_programs(seed: int, n: int):
+    rng = random.Random(seed * 31337 + 7)
+    out = []
+    for _ in range(n):
+        pl = rng.choice(["P2", "P2", "P1", "P3"])
+        const = rng.random() < 0.5
+        out.append((pl, const, deep_precondition(rng, PARAM_LISTS[pl], const, numeric=rng.random() < 0.5)))
+    return out
+
+
+def deep_when_effect(rng, params, const):
+    """a conditional effect whose condition is a nested or / contains a forall"""
+    cond = deep_precondition(rng, params, const, numeric=rng.random() < 0.4)
+    res = results(rng, params, const, True, rng.choice([1, 2]))
+    return ["and", ["when", cond, ["and"] + res]] + results(rng, params, const, False, rng.choice([0, 1]))
 
 
 def sampled_programs(seed: int, n: int, want="pre"):
